@@ -271,6 +271,10 @@ type H1Client struct {
 	heldBody []byte
 	heldFor  *ReqRec
 	Continues int
+	// Pipeline: the next request is sent right behind the one that is outstanding (HTTP/1.1 pipelining);
+	// sent holds what has been sent behind cur, in order
+	Pipeline bool
+	sent     []*ReqRec
 }
 
 func NewH1Client(s *sim.Sim, h *History, name string) *H1Client {
@@ -297,6 +301,20 @@ func (x *H1Client) dropQueue() {
 func (x *H1Client) pump() {
 	if x.left {
 		x.dropQueue()
+		return
+	}
+	if x.cur != nil && x.Pipeline && len(x.sent) == 0 && len(x.queue) > 0 && x.heldFor == nil && x.Conn != nil && !x.Conn.PeerDone() && !x.Conn.MosnClosed() &&
+		x.queue[0].Extra["expect"] == "" && x.queue[0].Method != "HEAD" && x.cur.Method != "HEAD" {
+		r := x.queue[0]
+		x.queue = x.queue[1:]
+		x.sent = append(x.sent, r)
+		r.Queued = false
+		r.ConnID = x.Conn.ID
+		r.Client = x.Name
+		r.SentAt = x.S.Now()
+		x.Conn.Send(r.Frame)
+		x.S.Fault("w:h1_pipelined_request")
+		x.S.Logf("h1client %s send req#%d %s %dB right behind req#%d", x.Name, r.Idx, r.Method, len(r.Frame), x.cur.Idx)
 		return
 	}
 	if x.cur != nil || len(x.queue) == 0 {
@@ -389,6 +407,9 @@ func (x *H1Client) drain(eof bool) {
 		r := x.cur
 		r.Replies = append(r.Replies, &ReplyRec{At: x.S.Now(), Frame: m.Raw, Tok: tok, Status: uint32(m.Status), Success: m.Status == 200, Body: m.Body, H: m})
 		x.cur = nil
+		if len(x.sent) > 0 {
+			x.cur, x.sent = x.sent[0], x.sent[1:] // the next response answers the request sent behind it
+		}
 		if v, _ := m.Get("Connection"); strings.EqualFold(v, "close") {
 			// server announced close; wait for it
 		}
@@ -403,6 +424,12 @@ func (x *H1Client) OnClose(c *sim.Conn) {
 	x.SawClose = true
 	x.ClosedAt = x.S.Now()
 	x.drain(true)
+	for _, r := range x.sent {
+		if r.ConnClosedAt == 0 {
+			r.ConnClosedAt = x.ClosedAt
+		}
+	}
+	x.sent = nil
 	if x.cur != nil && x.cur.ConnClosedAt == 0 {
 		// closed with a request outstanding: this client gives up (no reconnect, the
 		// rest of its queue is dropped) so that the run can come to its idle point
@@ -421,6 +448,12 @@ func (x *H1Client) Leave(reset bool) {
 	if x.cur != nil && x.cur.ClientLeftAt == 0 {
 		x.cur.ClientLeftAt = x.S.Now()
 	}
+	for _, r := range x.sent {
+		if r.ClientLeftAt == 0 {
+			r.ClientLeftAt = x.S.Now()
+		}
+	}
+	x.sent = nil
 	x.cur = nil
 	x.left = true
 	x.dropQueue()
